@@ -4,7 +4,7 @@ import random
 
 import numpy as np
 
-from vk.common import BoundedPart
+from vk.common import sseed,  BoundedPart
 from . import gen_circuits as G, logic_drv, map_drv
 
 OPTS = [dict(c_reuse=r, strip_forks=s) for r in (False, True) for s in (False, True)]
@@ -38,7 +38,7 @@ def part(tier, seed, which=('map', 'sched'), pid='C08'):
     wide = [(G.wide_circuit(150, 2), ('wide', 150, 2)), (G.wide_circuit(40, 4), ('wide', 40, 4))]
     for c, sig in itertools.chain(wide, logic_drv.circuit_cases(tier, seed)):
         desc = G.describe(c)
-        rng = random.Random(hash(str(sig)) & 0xfffff)
+        rng = random.Random(sseed(str(sig)) & 0xfffff)
         capsets = [(1, 1), (8, 4)]
         capsets.append(([4 * rng.randrange(1, 4) for _ in range(len(c.lines) + 3)], 4))
         for opts in OPTS:
